@@ -372,6 +372,7 @@ class UnitResult:
         self.ground = []           # exactly decided obligations: (name, bool, note)
         self.wall = 0.0
         self.uncovered = 0
+        self.child_access = []
 
 
 def generic_clauses(cx, ex, st, oc):
@@ -405,9 +406,12 @@ def verify_config(contract, cfg, both=False, z3_timeout=None):
     label = f'fragment:{contract.cls_name}[{contract.label(cfg)}]'
     res = UnitResult(label, cfg)
     try:
+        frag.ACCESS_LOG.clear()
         node, kids = contract.build(cfg)
         uses_context = bool(cfg.get('ctx', False))
         src, temps = frag.emit_with_names(node, uses_context, max_num_blocks=cfg.get('max_num_blocks'))
+        frag.flags_of(node)
+        res.child_access = sorted(frag.ACCESS_LOG)
         res.src = src
         tree = ast.parse(src)
         cx = Cx(contract, cfg, node, kids, uses_context)
@@ -521,4 +525,4 @@ def result_to_dict(res):
         vs.append(d)
     return {'unit': res.unit, 'cfg': res.cfg, 'error': res.error, 'verdicts': vs, 'ground': res.ground,
             'paths': res.paths, 'wall': round(res.wall, 3), 'src': res.src, 'flags': res.flags,
-            'uncovered': res.uncovered, 'stats': res.stats}
+            'uncovered': res.uncovered, 'stats': res.stats, 'child_access': res.child_access}
